@@ -299,7 +299,7 @@ def registry_go(module, pkgs):
     lines = ["package main\n\nimport (\n\t\"github.com/lopolopen/shoot\"\n\n"]
     for p in pkgs:
         lines.append('\t"%s/%s"\n' % (module, p.name))
-    lines.append(")\n\nfunc init() {\n")
+    lines.append(")\n\nvar _ shoot.RestConf\n\nfunc init() {\n")
     for p in pkgs:
         for it in p.ifaces:
             lines.append('\tifaces["%s.%s"] = func(o ...Opt) any { return shoot.NewRest[%s.%s](o...) }\n'
